@@ -123,9 +123,12 @@ def emit_tables(pack, knobs=None):
                (ncls, len(pack.conds), len(pack.numbered_rules())))
     knobs.setdefault("VF_BUDGET_DEFAULT", 0)
     knobs.setdefault("VF_BUDGET_TOTAL", 0)
+    knobs.setdefault("VF_BUFSIZES", "0")
+    sc_args = knobs.pop("sc_args", None) or [0]
     for k, v in sorted(knobs.items()):
         out.append("#ifndef %s\n#define %s %s\n#endif\n" % (k, k, v))
     out.append(_carr("vf_cls", "unsigned char", cls, 32))
+    out.append(_carr("vf_sc_args", "int", [pack.scindex[x] if isinstance(x, str) else x for x in sc_args]))
     dfas = []
     cache = {}
 
@@ -397,3 +400,56 @@ def replay_case(flex, rdir):
         return bad, json.dumps({"summary": res["summary"], "viols": res["viols"][:3], "stderr": res["stderr"][-500:]})
     finally:
         shutil.rmtree(wd, ignore_errors=True)
+
+
+def harness_own_error(bf):
+    """True if a compile failure is located in the harness's own headers."""
+    import re
+    if bf.get("stage") != "cc":
+        return False
+    m = re.search(r"^(\S+?):\d+:\d+: error", bf.get("stderr", ""), re.M)
+    return bool(m and "/csrc/" in m.group(1))
+
+
+# ---------------------------------------------------------------- action text
+
+OP_LESS, OP_UNPUT, OP_INPUT1, OP_INPUT2, OP_INPUT3, OP_MORE, OP_REJECT, OP_BEGIN, OP_PUSH, OP_POP, OP_TOP, \
+    OP_SETBOL, OP_RETURN = range(1, 14)
+
+
+def opmask(*ops):
+    m = 0
+    for o in ops:
+        m |= 1 << o
+    return m
+
+
+def ops_action(ops, api="NR"):
+    """Action text performing the operation the explorer chooses.  Only the
+    enabled operations appear textually (flex enables yymore/yyreject support
+    by finding their names in the actions)."""
+    only = "yyscanner" if api == "R" else ""
+    last = ", yyscanner" if api in ("R", "C99") else ""
+    inp = "yyinput(%s)" % only
+    one_in = "{ int vf_c = %s; vf_did_input(vf_c, yylineno); }" % inp
+    cases = {
+        OP_LESS: "{ int vf_k = vf_arg_less((long)yyleng); yyless(vf_k); vf_did_less(vf_k, yytext, (long)yyleng, yylineno); } break;",
+        OP_UNPUT: "{ int vf_c = vf_arg_unput(); yyunput(vf_c); vf_did_unput(vf_c, yytext, (long)yyleng, yylineno); } break;",
+        OP_INPUT1: one_in + " break;",
+        OP_INPUT2: one_in + " " + one_in + " break;",
+        OP_INPUT3: one_in + " " + one_in + " " + one_in + " break;",
+        OP_MORE: "yymore(); vf_did_more(); break;",
+        OP_REJECT: "vf_will_reject(); yyreject(); break;",
+        OP_BEGIN: "{ int vf_s = vf_arg_sc(); yybegin(vf_s); vf_did_begin(vf_s, yystart()); } break;",
+        OP_PUSH: "{ int vf_s = vf_arg_sc(); yy_push_state(vf_s%s); vf_did_push(vf_s, yystart()); } break;" % last,
+        OP_POP: "vf_will_pop(); yy_pop_state(%s); vf_did_pop(yystart()); break;" % only if api != "C99" else
+                "vf_will_pop(); yy_pop_state(yyscanner); vf_did_pop(yystart()); break;",
+        OP_TOP: ("vf_did_top(yy_top_state(%s)); break;" % only) if api != "C99" else "vf_did_top(yy_top_state(yyscanner)); break;",
+        OP_SETBOL: "{ int vf_v = vf_choose(2, 2); yysetbol(vf_v); vf_did_setbol(vf_v, yyatbol()); } break;",
+        OP_RETURN: "vf_did_return(); return 1;",
+    }
+    L = ["{ switch (vf_op((long)yyleng)) {"]
+    for o in sorted(ops):
+        L.append("  case %d: %s" % (o, cases[o]))
+    L.append("  default: break; } }")
+    return "\n".join(L)
